@@ -266,6 +266,7 @@ static KV genCase()
     KV c;
     GridOpts go;
     go.nr_min = 4;
+    go.extreme_units = true;
     go.nr_max = 40;
     go.nt_min = 4;
     go.nt_max = 48;
